@@ -64,8 +64,10 @@ type sysStream struct {
 	elems    [2]map[int]string // RBSP bit position -> syntax element that starts there (ref streams only)
 	fields   [2][]fieldPos     // the syntax elements of two or more bits (ref streams only)
 	slices   [][]byte
-	seis     [][]byte
-	features []string
+	// sliceLoops[i]: the count-/command-driven parts the header of slices[i] has (as the library parsed it: evidence only)
+	sliceLoops [][]string
+	seis       [][]byte
+	features   []string
 }
 
 type sysTarget struct {
@@ -238,7 +240,7 @@ func hevcMapsFor(sps *hevc.SPS, pps *hevc.PPS) (map[uint32]*hevc.SPS, map[uint32
 func finishStream(st *sysStream, cand [][]byte, maxSlices int) bool {
 	seen := map[string]bool{}
 	class := map[string]int{}
-	add := func(u []byte, cl string) {
+	add := func(u []byte, cl string, loops []string) {
 		if len(st.slices) >= maxSlices || class[cl] >= 2 || seen[string(u)] {
 			return
 		}
@@ -248,6 +250,13 @@ func finishStream(st *sysStream, cand [][]byte, maxSlices int) bool {
 			u = u[:400]
 		}
 		st.slices = append(st.slices, u)
+		st.sliceLoops = append(st.sliceLoops, loops)
+	}
+	on := func(l []string, c bool, name string) []string {
+		if c {
+			return append(l, name)
+		}
+		return l
 	}
 	if st.codec == "avc" {
 		sps := setupAVCSPS(st.sps)
@@ -265,7 +274,14 @@ func finishStream(st *sysStream, cand [][]byte, maxSlices int) bool {
 			if sh == nil {
 				continue
 			}
-			add(u, fmt.Sprintf("t%d-o%v-idr%v", sh.SliceType%5, sh.NumRefIdxActiveOverrideFlag, u[0]&0x1f == 5))
+			t := sh.SliceType % 5
+			var lp []string
+			lp = on(lp, sh.RefPicListModificationL0Flag, "ref_pic_list_modification_l0")
+			lp = on(lp, sh.RefPicListModificationL1Flag, "ref_pic_list_modification_l1")
+			lp = on(lp, pps.WeightedPredFlag && (t == 0 || t == 3) || pps.WeightedBipredIDC == 1 && t == 1, "pred_weight_table")
+			lp = on(lp, sh.AdaptiveRefPicMarkingModeFlag, "dec_ref_pic_marking(adaptive)")
+			lp = on(lp, pps.NumSliceGroupsMinus1 > 0 && pps.SliceGroupMapType >= 3 && pps.SliceGroupMapType <= 5, "slice_group_change_cycle")
+			add(u, fmt.Sprintf("t%d-o%v-idr%v", t, sh.NumRefIdxActiveOverrideFlag, u[0]&0x1f == 5), lp)
 		}
 		if pps.WeightedPredFlag {
 			st.features = append(st.features, "weighted_pred")
@@ -309,7 +325,14 @@ func finishStream(st *sysStream, cand [][]byte, maxSlices int) bool {
 		if sh == nil {
 			continue
 		}
-		add(u, fmt.Sprintf("t%d-o%v-n%d-dep%v", sh.SliceType, sh.NumRefIdxActiveOverrideFlag, (u[0]>>1)&0x3f, sh.DependentSliceSegmentFlag))
+		var lp []string
+		lp = on(lp, sh.RefPicListsModification != nil, "ref_pic_lists_modification")
+		lp = on(lp, sh.PredWeightTable != nil, "pred_weight_table")
+		lp = on(lp, sh.NumLongTermPics+uint(sh.NumLongTermSps) > 0, "long_term_pics")
+		lp = on(lp, !sh.ShortTermRefPicSetSpsFlag && (sh.ShortTermRefPicSet.NumNegativePics+sh.ShortTermRefPicSet.NumPositivePics) > 0, "slice_local_st_ref_pic_set")
+		lp = on(lp, sh.NumEntryPointOffsets > 0, "entry_point_offsets")
+		lp = on(lp, sh.SegmentHeaderExtensionLength > 0, "slice_segment_header_extension")
+		add(u, fmt.Sprintf("t%d-o%v-n%d-dep%v", sh.SliceType, sh.NumRefIdxActiveOverrideFlag, (u[0]>>1)&0x3f, sh.DependentSliceSegmentFlag), lp)
 	}
 	for _, f := range []struct {
 		on   bool
@@ -1175,5 +1198,104 @@ func genCtxUE(x *runCtx, c *runner.Ctx, sub int) *job {
 		x.note("ctx_ue_stream_feature", st.codec+" "+f)
 	}
 	c.Count("ctx_ue_cases", 1)
+	return j
+}
+
+// ---------------------------------------------------------------------------
+// ctx-trunc: every slice of every context cut short - after every byte of the
+// NAL unit, and after every bit of the RBSP with the rbsp_trailing_bits put
+// back (so the data ends exactly behind each syntax element, in particular
+// inside the command loops of ref_pic_list_modification and
+// dec_ref_pic_marking and inside the count-driven tables: pred_weight_table,
+// long-term pictures, entry points, header extension) - parsed against the
+// unmodified parameter sets of that context. trunc (c16.go) cuts the seeds and
+// parses them against the default maps, where the header layout of a slice of
+// another context is lost after the first fields.
+
+const ctxTruncBlock = 32
+
+type ctxTruncTarget struct {
+	stream, slice  int
+	nbytes, nbits  int // cuts: 0..nbytes-1 bytes kept, 0..nbits-1 RBSP bits kept
+	firstCase, num int
+}
+
+var ctxTruncTargets []ctxTruncTarget
+
+func buildCtxTruncPlan(thorough bool) int {
+	ctxTruncTargets = nil
+	maxBits := 512
+	if thorough {
+		maxBits = 3200
+	}
+	total := 0
+	for i, st := range sysStreams {
+		for k, u := range st.slices {
+			hdr := hdrLen(st.codec)
+			if len(u) <= hdr {
+				continue
+			}
+			t := ctxTruncTarget{stream: i, slice: k, nbytes: len(u), nbits: len(bitw.Unescape(u[hdr:])) * 8, firstCase: total}
+			if t.nbits > maxBits {
+				t.nbits = maxBits
+			}
+			t.num = (t.nbytes + t.nbits + ctxTruncBlock - 1) / ctxTruncBlock
+			total += t.num
+			ctxTruncTargets = append(ctxTruncTargets, t)
+		}
+	}
+	return total
+}
+
+// cutBitsNAL keeps the first n RBSP bits of a NAL unit and closes the RBSP
+// with the stop bit and alignment zeros.
+func cutBitsNAL(nal []byte, hdr, n int) []byte {
+	rbsp := bitw.Unescape(nal[hdr:])
+	w := &bitw.W{}
+	for i := 0; i < n && i < len(rbsp)*8; i++ {
+		w.Put(uint64(bitAt(rbsp, i)), 1)
+	}
+	w.TrailingBits()
+	return append(cp(nal[:hdr]), bitw.Escape(w.Bytes())...)
+}
+
+func genCtxTrunc(x *runCtx, c *runner.Ctx, sub int) *job {
+	lo, hi := 0, len(ctxTruncTargets)-1
+	for lo < hi {
+		mid := (lo + hi + 1) / 2
+		if ctxTruncTargets[mid].firstCase <= sub {
+			lo = mid
+		} else {
+			hi = mid - 1
+		}
+	}
+	tg := ctxTruncTargets[lo]
+	st := &sysStreams[tg.stream]
+	u := st.slices[tg.slice]
+	hdr := hdrLen(st.codec)
+	ch := &chainDetail{Codec: st.codec, Base: []string{hex.EncodeToString(st.sps), hex.EncodeToString(st.pps)}}
+	j := &job{chain: ch}
+	first := (sub - tg.firstCase) * ctxTruncBlock
+	for k := first; k < first+ctxTruncBlock && k < tg.nbytes+tg.nbits; k++ {
+		if k < tg.nbytes {
+			j.items = append(j.items, item{In: cp(u[:k]), Mode: "dependent",
+				Desc: fmt.Sprintf("ctx-trunc(%s): first %d of %d bytes of slice %d of %s, parsed against the unmodified parameter sets of that context", st.codec, k, len(u), tg.slice, st.name)})
+			continue
+		}
+		n := k - tg.nbytes
+		j.items = append(j.items, item{In: cutBitsNAL(u, hdr, n), Mode: "dependent",
+			Desc: fmt.Sprintf("ctx-trunc(%s): first %d RBSP bits of slice %d of %s + rbsp_trailing_bits, parsed against the unmodified parameter sets of that context", st.codec, n, tg.slice, st.name)})
+	}
+	x.note("ctx_trunc_context", st.codec+" "+st.origin)
+	if tg.slice < len(st.sliceLoops) {
+		for _, l := range st.sliceLoops[tg.slice] {
+			x.note("ctx_trunc_slice_with", st.codec+" "+l)
+		}
+		if len(st.sliceLoops[tg.slice]) == 0 {
+			x.note("ctx_trunc_slice_with", st.codec+" (none of the loops)")
+		}
+	}
+	c.Count("ctx_trunc_cases", 1)
+	c.Count("ctx_trunc_inputs", int64(len(j.items)))
 	return j
 }
